@@ -243,7 +243,7 @@ def predicates(fam, cls, op, b, r, a, hist):
         for nm, vv in vals:
             if not vnonneg(vv):
                 known = None
-                if fam == "qarc" and nm == "vin" and ((k == "push" and hist.get("carried_push")) or hist.get("neg_known")):
+                if fam in ("qarc", "altarc") and nm == "vin" and ((k == "push" and hist.get("carried_push")) or hist.get("neg_known")):
                     known = "late-bounce"
                     hist["neg_known"] = True
                 bad("C06", f"{cls}.{nm} negative after {k}: {[str(x) for x in vv]}", known)
@@ -472,6 +472,8 @@ def run_case(fam, c, pids, rep, stats):
                     hist["tiny"] = True      # dry-mass offers are outside the quantifier; stop exact ledgers
             if fam == "qarc":
                 hist["carried_push"] = any(q[2] == "push" and q[0] == 0 for q in b["queue"]) and hist.get("ended", False)
+            if fam == "altarc":
+                hist["carried_push"] = any(x != 0 for x in b["buckets"].get(0, (0,))) and hist.get("ended", False)
             r = R.do(op)
             a = R.snap()
             if k == "end":
